@@ -37,6 +37,7 @@ SIZES = [1, 2, 62, 1023, 1024, 1025, 3000, 4095, 4096, 4097, 8192, 12289, 16384,
 
 class C19(vlib.PropertyCheck):
     id = 'C19'
+    env_debug_pass = False   # the harness interposes write(): the library's fatal-error text never reaches stderr, so a by-design ASSERT (fd >= 0) cannot be told from any other
     family = 'c19'
     harness = 'c19.c'
     case_timeout = 300
